@@ -162,17 +162,18 @@ type World struct {
 	Replicate func(node int) error
 
 	// records of the last run
-	HeadCalls    []int // remote nodes asked for the checked object's header
-	HeadOK       []int // ... that returned it
-	ReplCalls    []int // remote nodes the real RemoteSender sent the object to
-	ReplOK       []int // ... that acknowledged
-	ReplPrepErrs []int // nodes a replica was meant for but never sent to: building the request from the object source failed
-	Submitted    []int // nodes reported to the policer through replicator.TaskResult
-	Tasks        []Task
-	Deletes      []engine.GarbageMark
-	ShardTrims   [][]string
-	PartHeads    int // HEAD-by-parent requests of checkECParts
-	UnknownCalls []string
+	HeadCalls      []int // remote nodes asked for the checked object's header
+	HeadOK         []int // ... that returned it
+	ReplCalls      []int // remote nodes the real RemoteSender sent the object to
+	ReplOK         []int // ... that acknowledged
+	CancelledCalls int   // remote calls attempted with an already cancelled context
+	ReplPrepErrs   []int // nodes a replica was meant for but never sent to: building the request from the object source failed
+	Submitted      []int // nodes reported to the policer through replicator.TaskResult
+	Tasks          []Task
+	Deletes        []engine.GarbageMark
+	ShardTrims     [][]string
+	PartHeads      int // HEAD-by-parent requests of checkECParts
+	UnknownCalls   []string
 
 	// Optional EC hooks (C22 "callers" part). nil = the default world: every sibling part is healthy.
 	// PartHead answers a HEAD for part (rule, part) of the parent on node (remote node or the local one).
@@ -185,6 +186,12 @@ type World struct {
 	// LocalPut answers the replicator's attempt to store an object on the local node (needs the engine
 	// Put hook in the overlay).
 	LocalPut func(o *object.Object) error
+	// CancelAt: 0 = the policer's context is never cancelled; k >= 1 = it is cancelled as soon as k-1 remote
+	// HEADs of the checked object have returned (k = 1: before the pass starts). Remote calls made with a
+	// cancelled context fail with the context's error, like real RPCs.
+	CancelAt int
+	cancel   context.CancelFunc
+
 	// AllowForeign: replicas of objects other than the checked one (recreated EC parts) are expected.
 	AllowForeign bool
 	// Sends lists, in order, every attempt to place a replica: remote sends and local puts.
@@ -401,7 +408,11 @@ func CalibrateAgainstSDK() error {
 // ObjectBytes is what the replicator reads from the local engine for every task.
 var ObjectBytes = []byte("verif-object-bytes")
 
-func (c fakeClient) ReplicateObject(_ context.Context, id oid.ID, src io.ReadSeeker, _ neofscrypto.Signer, _ bool) (*neofscrypto.Signature, error) {
+func (c fakeClient) ReplicateObject(ctx context.Context, id oid.ID, src io.ReadSeeker, _ neofscrypto.Signer, _ bool) (*neofscrypto.Signature, error) {
+	if err := ctx.Err(); err != nil {
+		c.w.CancelledCalls++
+		return nil, err
+	}
 	if id != Obj && !c.w.AllowForeign {
 		c.w.UnknownCalls = append(c.w.UnknownCalls, "ReplicateObject "+id.String())
 	}
@@ -491,7 +502,7 @@ const farTimeout = time.Duration(1<<63 - 1)
 func New() *World {
 	w := &World{partHdr: map[[2]int]object.Object{}}
 	conns := &policer.VerifConns{
-		Head: func(_ context.Context, n netmap.NodeInfo, a oid.Address, _ bool, xs []string) (object.Object, error) {
+		Head: func(ctx context.Context, n netmap.NodeInfo, a oid.Address, _ bool, xs []string) (object.Object, error) {
 			i := NodeIndex(n)
 			if xs != nil { // checkECParts: sibling part requested by parent + EC attributes
 				w.PartHeads++
@@ -509,7 +520,14 @@ func New() *World {
 			if a.Object() != Obj {
 				w.UnknownCalls = append(w.UnknownCalls, "head "+a.String())
 			}
+			if err := ctx.Err(); err != nil {
+				w.CancelledCalls++
+				return object.Object{}, err
+			}
 			w.HeadCalls = append(w.HeadCalls, i)
+			if w.cancel != nil && len(w.HeadCalls) == w.CancelAt-1 {
+				defer w.cancel()
+			}
 			if err := w.HeadAnswer(i); err != nil {
 				return object.Object{}, err
 			}
@@ -556,6 +574,7 @@ func (w *World) Reset() {
 	w.Tasks, w.Deletes, w.ShardTrims, w.UnknownCalls = nil, nil, nil, nil
 	w.PartHeads = 0
 	w.ReplPrepErrs = w.ReplPrepErrs[:0]
+	w.CancelledCalls = 0
 	w.Sends = w.Sends[:0]
 	w.demux = nil
 }
@@ -570,5 +589,17 @@ func (w *World) Run(typ object.Type, shards []string, ecRuleIdx, ecPartIdx int) 
 		a.Attributes[1] = strconv.Itoa(ecPartIdx)
 		a.Attributes[2] = string(Parent[:])
 	}
-	w.P.VerifProcessObject(farCtx{}, a)
+	var ctx context.Context = farCtx{}
+	w.cancel = nil
+	if w.CancelAt > 0 {
+		ctx, w.cancel = context.WithCancel(ctx)
+		if w.CancelAt == 1 {
+			w.cancel()
+		}
+	}
+	w.P.VerifProcessObject(ctx, a)
+	if w.cancel != nil {
+		w.cancel()
+		w.cancel = nil
+	}
 }
